@@ -14,6 +14,7 @@ pub struct ChunkedReader {
 	pub refills: usize,
 	pub fill_calls: usize,
 	pub fail_at_refill: Option<usize>,
+	pub fail_kind: io::ErrorKind,
 	pub failed: bool,
 }
 
@@ -28,6 +29,7 @@ impl ChunkedReader {
 			refills: 0,
 			fill_calls: 0,
 			fail_at_refill: None,
+			fail_kind: io::ErrorKind::Other,
 			failed: false,
 		}
 	}
@@ -46,7 +48,7 @@ impl BufRead for ChunkedReader {
 			if let Some(n) = self.fail_at_refill {
 				if self.refills == n && !self.failed {
 					self.failed = true;
-					return Err(io::Error::new(io::ErrorKind::Other, "injected read error"));
+					return Err(io::Error::new(self.fail_kind, "injected read error"));
 				}
 			}
 			self.refills += 1;
